@@ -118,6 +118,19 @@ def ty_int_range(ty):
     return None
 
 
+def place_index(w, depth, place):
+    """abstract value of the index a place projection uses: a local (`a[i]`), a constant offset from the start (slice
+    pattern `[x, ..]`), or ('fromend', k) for a slice pattern counted from the end (`[.., x]`); None if there is none"""
+    for e in place['p']:
+        if e['k'] == 'index':
+            return w.store.get((depth, e['l']), TOP)
+        if e['k'] == 'cindex':
+            if e.get('from_end'):
+                return ('fromend', e['offset'])
+            return const_int(e['offset'])
+    return None
+
+
 def top_of_type(ty):
     r = ty_int_range(ty)
     if r is None:
@@ -815,7 +828,7 @@ class Interp:
         k = rv['k']
         if k == 'use':
             if self.rule is not None and hasattr(self.rule, 'on_load') and rv['op']['k'] in ('copy', 'move') \
-                    and any(e['k'] == 'index' for e in rv['op']['place']['p']):
+                    and any(e['k'] in ('index', 'cindex') for e in rv['op']['place']['p']):
                 r = self.rule.on_load(self, w, depth, rv['op']['place'])
                 if r is not None:
                     return r
@@ -856,6 +869,10 @@ class Interp:
                         return [(w, mk_int(r[1] ^ b for b in x[1]))]
                 return [(w, top_of_type(rv['xty']))]
             if op == 'PtrMetadata':
+                if self.rule is not None and hasattr(self.rule, 'on_len'):
+                    r = self.rule.on_len(self, w, x)
+                    if r is not None:
+                        return [(w, r)]
                 if x[0] == 'slc':
                     return [(w, x[2])]
                 if x[0] == 'cstr':
@@ -1161,8 +1178,21 @@ class Interp:
         return out
 
     def do_switch(self, w, depth, t):
+        o = t['op']
+        if self.rule is not None and hasattr(self.rule, 'on_load') and o['k'] in ('copy', 'move') \
+                and any(e['k'] in ('index', 'cindex') for e in o['place']['p']):
+            # a slice pattern (`[b'-', b'-', ..]`) tests elements in place: let the rule supply their values
+            r = self.rule.on_load(self, w, depth, o['place'])
+            if r is not None:
+                out = []
+                for w2, v2 in r:
+                    out.extend(self._switch_on(w2, v2, None, t))
+                return out
         v = self.operand(w, depth, t['op'])
         tgt = self.operand_target(w, depth, t['op'])
+        return self._switch_on(w, v, tgt, t)
+
+    def _switch_on(self, w, v, tgt, t):
         out = []
         if v[0] == 'symcmp':
             covered = set(t['vals'])
